@@ -54,6 +54,8 @@ def run(prog, tier):
     from ._families import borrow as _borrow
     from . import c16 as _c16
     _borrow(R, P, "GRAPH", prog, _c16.analyse, floor=100)
+    _borrow(R, P, "ALLOC", prog, c10.check_alloc_guard, floor=1)
+    _borrow(R, P, "ALLOC", prog, c10.check_numvar, floor=4)
     return R
 
 
